@@ -70,7 +70,7 @@ def gen_request(ch):
                                        + b"\r\nabc",
                                        f"gemini://{HOST}/second".encode() + b"\r\n" * 3])
     elif kind == 2:    # titan, exact content
-        size = ch.biased_size("tsize", 1, 6000, [1, 2, 10, 1000, 4096])
+        size = ch.biased_size("tsize", 1, 6000, [1, 2, 10, 1000, 4096, 5000, 5001, 6000])
         content = ch.bytes_("content", size)
         tok = ch.pick("tok", ["", ";token=sekrit"])
         fname = ["f0", "f1", "f2", "na\u00efve-\u20ac"][ch.choose('fname', 4, [3, 3, 3, 2])]
@@ -146,7 +146,8 @@ def run_case(ch, cfg, variant: bool, scratch):
         upspy = sw.SpyUpload(sim, plan)
         up = upspy
     elif cfg["upload"] == "real":
-        real = FileUploadHandler(updir, max_size=5000, auth_tokens=None, enable_delete=True)
+        real = FileUploadHandler(updir, max_size=5000, enable_delete=True,
+                                 auth_tokens=({"sekrit"} if cfg.get("utokens") else None))
         calls = []
 
         class CountingUpload:
@@ -375,6 +376,7 @@ def run_one(ch):
         "slowmw": ch.pick("slowmw", [None, 0.0, 0.2], [6, 1, 2]),
         "pieces": gen_pieces,
         "uraise": ch.chance("uraise", 0.12),
+        "utokens": ch.chance("utokens", 0.4),
     }
     # a client that closes its side right after the request: only where the outcome
     # cannot depend on timing (synchronous handler, no chain, Gemini request)
